@@ -138,7 +138,7 @@ Fixpoint replay (buffer : Z) (nbr : chip -> Z -> chip) (M : machine) (tr : list 
 
 (* ---- the memories the harness starts from: a pattern with sparse overrides; the torus of the harness ---- *)
 Definition pattern_byte (seed : Z) (c : chip) (a : Z) : Z :=
-  Z.land (a * 167 + Z.shiftr a 8 * 91 + fst c * 59 + snd c * 101 + seed * 13) 255.
+  Z.land (Z.land a 255 * 167 + Z.land (Z.shiftr a 8) 255 * 91 + fst c * 59 + snd c * 101 + seed * 13) 255.
 
 Definition pattern_machine (seed : Z) (over : list (chip * list (Z * Z))) : machine :=
   fun c a => match cassoc c over with
